@@ -110,6 +110,15 @@ func workerBatch(t *testing.T) {
 	out := &WorkerOut{World: wname, Prop: prop, Faults: map[string]int{}, Probes: map[string]int{}, Strategies: map[string]int{},
 		SeedLo: lo, OtherProps: map[string]int{}}
 	found := map[string]*FoundViolation{}
+	knownClass := map[string]bool{}
+	if v := os.Getenv("VERIF_KNOWN_CLASSES"); v != "" {
+		var l []string
+		_ = json.Unmarshal([]byte(v), &l)
+		for _, c := range l {
+			knownClass[c] = true
+		}
+	}
+	minimised := 0
 	sigs := map[uint64]struct{}{}
 	start := time.Now()
 	run := func(in core.Input) *core.Result { return core.Execute(t, in, w.Run) }
@@ -164,8 +173,13 @@ func workerBatch(t *testing.T) {
 			}
 			f := &FoundViolation{Class: v.Class(), Norm: core.NormalizeMsg(v.Msg), Msg: v.Msg, Count: 1, Seed: seed}
 			found[key] = f
-			// minimise (bounded) and write the replay file
-			if len(found) <= 6 {
+			// minimise (bounded) and write the replay file; classes listed as known findings
+			// neither get one nor use up the budget
+			if knownClass[key] {
+				continue
+			}
+			minimised++
+			if minimised <= 8 {
 				best, n := core.Minimise(res, v.Class(), run, int(envInt("VERIF_MIN_RUNS", 600)))
 				f.MinRuns = n
 				bv := v
